@@ -748,7 +748,8 @@ where
     ctx.obs(if pool.cfg.kind == Kind::Debug { "ctx.kind.debug_frame" } else { "ctx.kind.eh_frame" });
 
     // ---- exhaustive: every history of length <= 3, every variant (rel) / one variant (dbg)
-    let total3 = total_histories(n, 3);
+    // (Miri slice: lengths <= 2 only)
+    let total3 = total_histories(n, if ctx.slow() { 2 } else { 3 });
     for h in 0..total3 {
         let idx = h * nvar as u64 + vi as u64;
         if dbg && (h.wrapping_add(ctx.seed)) % nvar as u64 != vi as u64 {
